@@ -113,6 +113,10 @@ func ExtractIndexNames(path string) ([]string, []string) {
 	indexValues := make([]string, 0)
 	jsonMatches := rOnIndex.FindAllStringSubmatch(path, -1)
 	for _, m := range jsonMatches {
+		if !strings.Contains(m[1], "=") {
+			// a bracketed name such as a[b] is not a list index
+			continue
+		}
 		idxName := m[1][1:strings.LastIndex(m[1], "=")]
 		indexNames = append(indexNames, idxName)
 		idxValue := m[1][strings.LastIndex(m[1], "=")+1 : len(m[1])-1]
